@@ -31,6 +31,8 @@ const (
 	locArrIdx                // index into an array value stored at Parent
 	locGhost                 // ghost variable
 	locGField                // ghost field of a heap object (Ptr, Var)
+	locElemAll               // the whole backing array Base (heap var by elem sort)
+	locMapAll                // the whole contents of map Ptr (T = the map type)
 )
 
 type Loc struct {
@@ -72,6 +74,7 @@ type Obligation struct {
 	Inputs   map[string]string // model values of the function's inputs
 	Optional bool              // inferred/auxiliary: failure is "undecided", not a violation
 	HeapSorts map[string]string // heap variable -> sort (to declare entry values the query never mentions)
+	Children []*Obligation     // grouped obligations: discharged individually only when the group fails
 	Bounds   string            // soft bounds on the inputs, tried first when extracting a replayable model
 }
 
@@ -92,6 +95,12 @@ type Enc struct {
 	ifaces      map[string]*types.Interface
 	inlineStack []*ssa.Function
 	bounds      strings.Builder
+	mergeOf     map[string]mergeInfo // merged heap constant -> the alternatives it was built from
+}
+
+type mergeInfo struct {
+	conds []string
+	terms []string
 }
 
 type LoopInfo struct {
@@ -139,6 +148,7 @@ type Frame struct {
 	parent   *Frame
 	recovered bool
 	private  []*Loc // non-escaping local cells: untouched by callees
+	privateAllocs []*ssa.Alloc
 	siteKeys map[ssa.Instruction]string
 	defers   []*ssa.Defer
 }
@@ -228,10 +238,18 @@ func (e *Enc) mergeHeaps(conds []string, hs []*Heap) *Heap {
 			continue
 		}
 		term := e.hget(hs[len(hs)-1], k)
+		var alts []string
+		for _, h := range hs {
+			alts = append(alts, e.hget(h, k))
+		}
 		for i := len(hs) - 2; i >= 0; i-- {
 			term = fmt.Sprintf("(ite %s %s %s)", conds[i], e.hget(hs[i], k), term)
 		}
 		out.m[k] = e.define("Hm", e.S.heapSort[k], term)
+		if e.mergeOf == nil {
+			e.mergeOf = map[string]mergeInfo{}
+		}
+		e.mergeOf[out.m[k]] = mergeInfo{conds: append([]string{}, conds...), terms: alts}
 	}
 	return out
 }
@@ -263,6 +281,8 @@ func (e *Enc) load(h *Heap, l *Loc) string {
 		return fmt.Sprintf("(%s %s)", e.S.fieldAccessor(p.T, l.Field), e.load(h, p))
 	case locElem:
 		return fmt.Sprintf("(select (select %s %s) %s)", e.hget(h, e.S.elemVar(l.T)), l.Base, l.Index)
+	case locElemAll:
+		return fmt.Sprintf("(select %s %s)", e.hget(h, e.S.elemVar(l.T)), l.Base)
 	case locGlobal, locGhost:
 		return e.hget(h, l.Var)
 	case locGField:
@@ -313,6 +333,9 @@ func (e *Enc) store(h *Heap, l *Loc, v string) {
 		ev := e.S.elemVar(l.T)
 		cur := e.hget(h, ev)
 		e.hset(h, ev, fmt.Sprintf("(store %s %s (store (select %s %s) %s %s))", cur, l.Base, cur, l.Base, l.Index, v))
+	case locElemAll:
+		ev := e.S.elemVar(l.T)
+		e.hset(h, ev, fmt.Sprintf("(store %s %s %s)", e.hget(h, ev), l.Base, v))
 	case locGlobal, locGhost:
 		e.hset(h, l.Var, v)
 	case locGField:
@@ -342,8 +365,11 @@ func (e *Enc) heapVarsOfLoc(l *Loc) []string {
 			return []string{e.S.fieldVar(l.Parent.T, l.Field)}
 		}
 		return e.heapVarsOfLoc(l.Parent)
-	case locElem:
+	case locElem, locElemAll:
 		return []string{e.S.elemVar(l.T)}
+	case locMapAll:
+		mt := l.T.Underlying().(*types.Map)
+		return []string{e.S.mapVar(mt), e.S.mapDomVar(mt), e.S.mapLenVar()}
 	case locGlobal, locGhost, locGField:
 		return []string{l.Var}
 	case locArrIdx:
@@ -599,4 +625,34 @@ func not(t string) string {
 		return "true"
 	}
 	return "(not " + t + ")"
+}
+
+// freshLike declares an unconstrained constant of heap variable hv's sort.
+func (e *Enc) freshLike(hv string) string {
+	n := e.fresh("Hx")
+	e.decl(n, e.S.heapSort[hv])
+	return n
+}
+
+// addGroup adds one obligation for the conjunction of several conditions at
+// the same program point; the members are discharged one by one only if the
+// conjunction does not discharge (to name the failing member).
+func (e *Enc) addGroup(kind, detail, reach string, names, conds []string, pos token.Pos, src string, props []string) {
+	if e.dry || len(conds) == 0 {
+		return
+	}
+	if len(conds) == 1 {
+		e.addObl(kind, names[0], reach, conds[0], pos, src, props)
+		return
+	}
+	parent := e.addObl(kind, detail, reach, and(conds...), pos, src, props)
+	prefix := e.body.String()
+	fnName := e.P.fnDisplay(e.fn)
+	for i, c := range conds {
+		ch := &Obligation{Name: fmt.Sprintf("%s#%s:%s", fnName, kind, names[i]), Kind: kind, Fn: fnName, Src: src, Props: props, Pos: parent.Pos}
+		ch.Name = e.oblName(ch.Name)
+		ch.Query = prefix + fmt.Sprintf("(assert %s)\n(assert (not %s))\n", reach, c)
+		ch.Bounds = parent.Bounds
+		parent.Children = append(parent.Children, ch)
+	}
 }
